@@ -289,6 +289,15 @@ func supervise(scs []Scenario) {
 						}
 					}
 				}
+				if !stalled && err != nil && len(got) > 0 && got[len(got)-1].Died {
+					// keep what the dying process printed (a panic, a runtime fatal error, a signal) with the scenario
+					if b, e := ioutil.ReadFile(logPath); e == nil {
+						if len(b) > 3000 {
+							b = b[len(b)-3000:]
+						}
+						got[len(got)-1].Note += fmt.Sprintf("child exited: %v\n%s", err, string(b))
+					}
+				}
 				mu.Lock()
 				done := 0
 				for _, t := range got {
